@@ -229,6 +229,23 @@ def generated_inputs(ctx: Ctx, per_format: int):
             raw = _damage_member(c14.build(case)[0], (".png",))
             if raw is not None:
                 out.append({"name": f"damaged-picture:{fmt}", "ext": PROFILES[fmt]["ext"] if fmt in PROFILES else fmt, "data": raw})
+    # mail whose attachment parts declare no file name (a forwarded message, a nameless text part): whatever name they are given must be the same every time
+    from email import policy as _policy
+    from email.message import EmailMessage as _EM
+    inner = _EM()
+    inner["Subject"], inner["From"], inner["To"] = "inner", "x@example.org", "y@example.org"
+    inner.set_content("forwarded text ZX08730\n")
+    outer = _EM()
+    outer["Subject"], outer["From"], outer["To"], outer["Date"], outer["Message-ID"] = "outer", "a@example.org", "b@example.org", "Fri, 01 Mar 2024 12:00:00 +0000", "<vf-fwd@example.org>"
+    outer.set_content("outer body ZB08731\n")
+    outer.add_attachment(inner)
+    outer.add_attachment(b"nameless bytes ZB08732", maintype="application", subtype="octet-stream")
+    raw = outer.as_bytes(policy=_policy.SMTP)
+    import re as _re
+    bnd = _re.search(rb'boundary="([^"]+)"', raw).group(1)
+    raw = raw.replace(bnd, b"vf-boundary-0001")          # the generator's boundary is random; the input must not be
+    out.append({"name": "nameless-attachments:eml", "ext": "eml", "data": raw})
+    out.append({"name": "nameless-attachments:mbox", "ext": "mbox", "data": b"From a@example.org Fri Mar  1 12:00:00 2024\n" + raw.replace(b"\r\n", b"\n") + b"\n"})
     # packages without the optional properties part
     for name in ("gen/nocore-a.pptx", "gen/nopath-nocore-b.pptx", "gen/nocore-a.docx", "gen/nometa-a.odt", "gen/nometa-a.odp"):
         out.append({"name": "pair:" + name, "ext": name.rsplit(".", 1)[-1], "data": _gen_office_cached()[name]})
